@@ -31,8 +31,8 @@ Local Open Scope N_scope.
    width*height*4; and a terminal that reads the chunk commands stores, under the image id,
    exactly (s = width, v = height, those bytes).  Unbounded in the image size. *)
 Theorem C11_payload : forall (img : image) (hash : N) (pos : N * N) (st : kitty),
-  image_wf img -> nonempty img -> lookup (image_id hash) (k_imgs st) = None ->
-  let id := image_id hash in
+  image_wf img -> nonempty img -> ids_range (k_ids st) -> lookup (image_id st hash) (k_imgs st) = None ->
+  let id := image_id st hash in
   let q := qval st in
   let chs := tx_chunks img in
   let tx := chunk_items true id (im_height img) (im_width img) q chs in
@@ -69,7 +69,7 @@ Proof. exact step_bytes_parse. Qed.
 
 (* hence the terminal side of a call (term_step, which would record error 99 for unparsable bytes)
    is the store run over those commands *)
-Theorem C11_term_step : forall (lost : bool) (st : kitty) (s : tstore) (o : op),
+Lemma C11_term_step : forall (lost : bool) (st : kitty) (s : tstore) (o : op),
   cache_wf st -> op_wf o ->
   term_step lost st s o = store_run (pre_store lost o s) (step_items st o).
 Proof. exact term_step_items. Qed.
@@ -96,7 +96,7 @@ Qed.
    so that "id" above is a function of the content: equal contents share it (C11_same_content_same_id),
    different contents differ in it outside the class id-collision.  NOT claimed: "at most once per
    handler lifetime" -- after an error response naming the id the pixels are sent again, by design. *)
-Theorem C11_once_between_errors_by_content : forall (quiet : bool) (uops : list (uop * bool)),
+Lemma C11_once_between_errors_by_content : forall (quiet : bool) (uops : list (uop * bool)),
   Forall (fun ul => uop_wf (fst ul)) uops ->
   let ops := map (fun ul => (with_hash (fst ul), snd ul)) uops in
   let trace := lockstep (kitty_new quiet) store0 ops in
@@ -113,9 +113,31 @@ Proof. intros strict lost st s o Hsl HI Hw. exact (proj1 (step_ok strict lost st
 
 (* ------------------------------------------------------------------------------------------ *)
 (* (pairing) identifiers fit the protocol's range 1..4294967295 (never 0 = "unspecified") *)
-Theorem C11_id_range : forall (hash : N) (pos : N * N),
-  1 <= image_id hash <= 4294967295 /\ 1 <= placement_id pos <= 4294967295.
-Proof. intros hash pos. split; [apply image_id_range|apply placement_id_range]. Qed.
+Theorem C11_id_range : forall (st : kitty) (hash : N) (pos : N * N), ids_range (k_ids st) ->
+  1 <= image_id st hash <= 4294967295 /\ 1 <= placement_id pos <= 4294967295 /\
+  ids_range (k_ids (note_id st hash)).
+Proof.
+  intros st hash pos H. split; [apply image_id_range, H|]. split; [apply placement_id_range|].
+  apply ids_note_range, H.
+Qed.
+
+(* two contents never share an id, a content keeps its id: in an id table that is in order (ids_ok:
+   valid ids, one entry per content hash, no id twice, fewer than 2^32 - 1 entries) a content hash that
+   is new gets an id no other entry holds, and the table stays in order *)
+Theorem C11_ids_distinct : forall (st : kitty) (hash : N),
+  ids_ok (k_ids st) -> N.of_nat (S (length (k_ids st))) < 4294967295 ->
+  ids_ok (k_ids (note_id st hash)) /\
+  lookup hash (k_ids (note_id st hash)) = Some (image_id st hash) /\
+  (forall h i, lookup h (k_ids st) = Some i -> lookup h (k_ids (note_id st hash)) = Some i) /\
+  (forall h1 h2 i, lookup h1 (k_ids (note_id st hash)) = Some i -> lookup h2 (k_ids (note_id st hash)) = Some i ->
+     h1 = h2).
+Proof.
+  intros st hash Hok Hroom. cbn [note_id k_ids].
+  assert (Hok' : ids_ok (ids_note (k_ids st) hash)) by (apply ids_note_ok; [exact Hok|exact Hroom]).
+  split; [exact Hok'|]. split; [apply lookup_note_same|]. split.
+  - intros h i Hl. apply lookup_note_kept, Hl.
+  - intros h1 h2 i H1 H2. exact (ids_ok_inj _ h1 h2 i Hok' H1 H2).
+Qed.
 
 (* for coordinates below 65536 the position is recovered from the placement id and distinct
    positions have distinct ids -- except that the very last position (65535,65535) shares the id
@@ -136,26 +158,26 @@ Qed.
 Theorem C11_pairing_draw : forall (strict lost : bool) (st : kitty) (s : tstore) (img : image) (hash : N) (pos : N * N),
   Inv strict st s -> image_wf img -> nonempty img ->
   places_of (term_step lost st s (OpDraw img hash pos)) =
-  (image_id hash, placement_id pos)
-    :: filter (fun x => negb (pl_eqb x (image_id hash, placement_id pos)))
+  (image_id st hash, placement_id pos)
+    :: filter (fun x => negb (pl_eqb x (image_id st hash, placement_id pos)))
          (if cached st hash then places_of s
-          else filter (fun x => negb (fst x =? image_id hash)) (places_of s)).
+          else filter (fun x => negb (fst x =? image_id st hash)) (places_of s)).
 Proof. exact draw_places_gen. Qed.
 
 (* with genuine error responses only, a draw touches nothing but its own placement *)
 Theorem C11_pairing_draw_strict : forall (lost : bool) (st : kitty) (s : tstore) (img : image) (hash : N) (pos : N * N),
   Inv true st s -> image_wf img -> nonempty img ->
   places_of (term_step lost st s (OpDraw img hash pos)) =
-  (image_id hash, placement_id pos)
-    :: filter (fun x => negb (pl_eqb x (image_id hash, placement_id pos))) (places_of s).
+  (image_id st hash, placement_id pos)
+    :: filter (fun x => negb (pl_eqb x (image_id st hash, placement_id pos))) (places_of s).
 Proof. exact draw_places. Qed.
 
 Theorem C11_pairing_erase : forall (strict lost : bool) (st : kitty) (s : tstore) (img : image) (hash : N) (pos : option (N * N)),
   Inv strict st s -> image_wf img ->
   places_of (term_step lost st s (OpErase img hash pos)) =
   match pos with
-  | Some p => filter (fun x => negb (pl_eqb x (image_id hash, placement_id p))) (places_of s)
-  | None => filter (fun x => negb (fst x =? image_id hash)) (places_of s)
+  | Some p => filter (fun x => negb (pl_eqb x (image_id st hash, placement_id p))) (places_of s)
+  | None => filter (fun x => negb (fst x =? image_id st hash)) (places_of s)
   end.
 Proof. exact erase_places. Qed.
 
@@ -164,17 +186,17 @@ Proof. exact erase_places. Qed.
 Theorem C11_pairing : forall (strict lost : bool) (st : kitty) (s : tstore) (img : image) (hash : N) (pos : N * N),
   Inv strict st s -> image_wf img -> in_dom pos ->
   let s' := term_step lost st s (OpErase img hash (Some pos)) in
-  ~ In (image_id hash, placement_id pos) (places_of s') /\
-  (forall x, In x (places_of s) -> x <> (image_id hash, placement_id pos) -> In x (places_of s')) /\
+  ~ In (image_id st hash, placement_id pos) (places_of s') /\
+  (forall x, In x (places_of s) -> x <> (image_id st hash, placement_id pos) -> In x (places_of s')) /\
   (forall pos', in_dom pos' -> pos' <> pos ->
      ~ (pos = (65534, 65535) /\ pos' = (65535, 65535)) -> ~ (pos = (65535, 65535) /\ pos' = (65534, 65535)) ->
-     In (image_id hash, placement_id pos') (places_of s) ->
-     In (image_id hash, placement_id pos') (places_of s')).
+     In (image_id st hash, placement_id pos') (places_of s) ->
+     In (image_id st hash, placement_id pos') (places_of s')).
 Proof. exact erase_exact. Qed.
 
 (* known finding (class pid-corner): the last two positions share the largest placement id.  There
    are 2^32 positions with coordinates below 65536 and only 2^32 - 1 valid ids, so some pair has to. *)
-Theorem C11_pairing_corner_refuted : exists p1 p2 : N * N,
+Lemma C11_pairing_corner_refuted : exists p1 p2 : N * N,
   in_dom p1 /\ in_dom p2 /\ p1 <> p2 /\ placement_id p1 = placement_id p2.
 Proof.
   exists (65534, 65535), (65535, 65535). repeat split; try reflexivity. discriminate.
@@ -182,7 +204,7 @@ Qed.
 
 (* the collision is forced: whatever numbering of positions by valid ids one picks, two distinct
    positions with coordinates below 65536 get the same id (2^32 positions, 2^32 - 1 ids) *)
-Theorem C11_pid_pigeonhole : forall f : N * N -> N,
+Lemma C11_pid_pigeonhole : forall f : N * N -> N,
   (forall p, in_dom p -> 1 <= f p <= 4294967295) ->
   exists p1 p2, in_dom p1 /\ in_dom p2 /\ p1 <> p2 /\ f p1 = f p2.
 Proof. exact pid_pigeonhole. Qed.
@@ -190,15 +212,15 @@ Proof. exact pid_pigeonhole. Qed.
 (* same content -> same id: the model of Surface::hash (Image/Fnv.v: fnv-1a over height, width and
    the pixels in row-major order; compared with the crate's value on every case) reads nothing but
    height, width and pixel bytes -- not the backing vector, offsets or strides *)
-Theorem C11_same_content_same_id : forall img1 img2 : image,
+Lemma C11_same_content_same_id : forall (st : kitty) (img1 img2 : image),
   im_height img1 = im_height img2 -> im_width img1 = im_width img2 -> pix_bytes img1 = pix_bytes img2 ->
-  image_id (surface_hash img1) = image_id (surface_hash img2).
-Proof. intros img1 img2 Hh Hw Hp. f_equal. exact (same_content_same_hash img1 img2 Hh Hw Hp). Qed.
+  image_id st (surface_hash img1) = image_id st (surface_hash img2).
+Proof. intros st img1 img2 Hh Hw Hp. f_equal. exact (same_content_same_hash img1 img2 Hh Hw Hp). Qed.
 
 (* the two identifier defects of the unfixed code, on the model side (formulas before the fix:
    id = hash mod 4294967295, placement id = row mod 65536 + (col mod 65536) * 65536): the 1x1 image
    RGBA(178,12,127,104) had image id 0 and position (0,0) had placement id 0 = "unspecified" *)
-Theorem C11_before_fix_refuted :
+Lemma C11_before_fix_refuted :
   surface_hash (mkImage [(178, 12, 127, 104)] (of_size 1 1)) mod 4294967295 = 0 /\
   (fst (0, 0) mod 65536) + (snd (0, 0) mod 65536) * 65536 = 0.
 Proof. vm_compute. split; reflexivity. Qed.
@@ -210,42 +232,41 @@ Proof. vm_compute. split; reflexivity. Qed.
    exactly when not transmitted since the last error response and then exactly the expected
    pixels with s, v, placements = old + {(id, pid)}, pid <> 0, (id, position) <-> pid functional
    and injective, erase removes exactly that placement, a re-transmitted image is re-placed where
-   draw had put it).  The model satisfies it on every case outside the two known classes: any
-   images (well formed, content index <-> image id one-to-one, i.e. no two contents of the case
-   collide in the 32-bit id: class id-collision, C11_id_collision_refuted), any history of draw /
-   erase / handle calls, positions with coordinates below 65536 other than the last one, which
-   shares its placement id (class pid-corner, C11_pairing_corner_refuted). *)
+   draw had put it).  The model satisfies it on every case outside the known class: any images (well
+   formed; content index and 64-bit content hash determine each other, i.e. no two contents of the case
+   collide in the full fnv hash), any history of draw / erase / handle calls shorter than the number
+   of image ids, positions with coordinates below 65536 other than the last one, which shares its
+   placement id (class pid-corner, C11_pairing_corner_refuted). *)
 Theorem C11_model_meets_predicate_outside_known_classes :
   forall (quiet : bool) (imgs : list c11_img) (contents : list content) (ops : list c11_op),
   (forall img h c, In (img, h, c) imgs -> image_wf img /\ nth_error contents c = Some (content_rec img)) ->
-  (forall i1 h1 c1 i2 h2 c2, In (i1, h1, c1) imgs -> In (i2, h2, c2) imgs ->
-     (c1 = c2 <-> image_id h1 = image_id h2)) ->
+  (forall i1 h1 c1 i2 h2 c2, In (i1, h1, c1) imgs -> In (i2, h2, c2) imgs -> (c1 = c2 <-> h1 = h2)) ->
   Forall (op_ok imgs) ops ->
+  N.of_nat (length ops) < 4294967295 ->
   c11_code (Case quiet imgs contents ops (c11_model (Case quiet imgs contents ops []))) = 0.
 Proof. exact model_meets_predicate. Qed.
 
-(* known finding (class id-collision): the image id is the 64-bit content hash reduced to 32 bits, so
-   two different contents can share an id.  Witness: two 1x1 images; after drawing the first, drawing
-   the second transmits nothing (one placement command only), i.e. the terminal shows the first one's
-   pixels for it, and the property predicate rejects the history (reason 106: two contents, one id). *)
+(* the former finding id-collision (fixed in the crate by c7a01ef): the two 1x1 images below start from
+   the same hash-derived id 3679365279; the second one drawn is now given the next free id, its own
+   pixels are transmitted, and the history passes the predicate *)
 Definition col_a : image := mkImage [(1, 238, 32, 255)] (of_size 1 1).
 Definition col_b : image := mkImage [(20, 45, 240, 128)] (of_size 1 1).
-Theorem C11_id_collision_refuted :
+Lemma C11_id_collision_resolved :
   pix_bytes col_a <> pix_bytes col_b /\
-  image_id (surface_hash col_a) = image_id (surface_hash col_b) /\
+  image_id_base (surface_hash col_a) = image_id_base (surface_hash col_b) /\
   (let st := snd (draw (kitty_new false) col_a (surface_hash col_a) (1, 1)) in
-   parse_stream (fst (draw st col_b (surface_hash col_b) (2, 2))) =
-   Some [put_item (image_id (surface_hash col_a)) (placement_id (2, 2)) 0]) /\
+   image_id st (surface_hash col_a) = 3679365279 /\ image_id st (surface_hash col_b) = 3679365280 /\
+   option_map (@length item) (parse_stream (fst (draw st col_b (surface_hash col_b) (2, 2)))) = Some 2%nat) /\
   (let imgs : list c11_img := [(col_a, surface_hash col_a, 0%nat); (col_b, surface_hash col_b, 1%nat)] in
    let contents := [content_rec col_a; content_rec col_b] in
-   let ops := [CDraw 0 (1, 1); CDraw 1 (2, 2)] in
-   c11_code (Case false imgs contents ops (c11_model (Case false imgs contents ops []))) = 1106).
+   let ops := [CDraw 0 (1, 1); CDraw 1 (2, 2); CErase 1 (Some (1, 1)); CErase 0 (Some (2, 2))] in
+   c11_code (Case false imgs contents ops (c11_model (Case false imgs contents ops []))) = 0).
 Proof. vm_compute. repeat split; try reflexivity. discriminate. Qed.
 
 (* ------------------------------------------------------------------------------------------ *)
 Check C11_payload : forall (img : image) (hash : N) (pos : N * N) (st : kitty),
-  image_wf img -> nonempty img -> lookup (image_id hash) (k_imgs st) = None ->
-  let id := image_id hash in
+  image_wf img -> nonempty img -> ids_range (k_ids st) -> lookup (image_id st hash) (k_imgs st) = None ->
+  let id := image_id st hash in
   let q := qval st in
   let chs := tx_chunks img in
   let tx := chunk_items true id (im_height img) (im_width img) q chs in
@@ -265,19 +286,19 @@ Check C11_once_between_errors : forall (quiet : bool) (ops : list (op * bool)),
 Check C11_pairing : forall (strict lost : bool) (st : kitty) (s : tstore) (img : image) (hash : N) (pos : N * N),
   Inv strict st s -> image_wf img -> in_dom pos ->
   let s' := term_step lost st s (OpErase img hash (Some pos)) in
-  ~ In (image_id hash, placement_id pos) (places_of s') /\
-  (forall x, In x (places_of s) -> x <> (image_id hash, placement_id pos) -> In x (places_of s')) /\
+  ~ In (image_id st hash, placement_id pos) (places_of s') /\
+  (forall x, In x (places_of s) -> x <> (image_id st hash, placement_id pos) -> In x (places_of s')) /\
   (forall pos', in_dom pos' -> pos' <> pos ->
      ~ (pos = (65534, 65535) /\ pos' = (65535, 65535)) -> ~ (pos = (65535, 65535) /\ pos' = (65534, 65535)) ->
-     In (image_id hash, placement_id pos') (places_of s) ->
-     In (image_id hash, placement_id pos') (places_of s')).
+     In (image_id st hash, placement_id pos') (places_of s) ->
+     In (image_id st hash, placement_id pos') (places_of s')).
 
 Check C11_model_meets_predicate_outside_known_classes :
   forall (quiet : bool) (imgs : list c11_img) (contents : list content) (ops : list c11_op),
   (forall img h c, In (img, h, c) imgs -> image_wf img /\ nth_error contents c = Some (content_rec img)) ->
-  (forall i1 h1 c1 i2 h2 c2, In (i1, h1, c1) imgs -> In (i2, h2, c2) imgs ->
-     (c1 = c2 <-> image_id h1 = image_id h2)) ->
+  (forall i1 h1 c1 i2 h2 c2, In (i1, h1, c1) imgs -> In (i2, h2, c2) imgs -> (c1 = c2 <-> h1 = h2)) ->
   Forall (op_ok imgs) ops ->
+  N.of_nat (length ops) < 4294967295 ->
   c11_code (Case quiet imgs contents ops (c11_model (Case quiet imgs contents ops []))) = 0.
 
 (* ------------------------------------------------------------------------------------------ *)
@@ -355,8 +376,7 @@ Example C11_model_meets_predicate_nonvacuous :
               CResp 900477109 (Some 458758) true true; CResp 78 None true false; CDraw 1 (65535, 65534);
               CResp 78 None false true; COther; CErase 1 None] in
   (forall img h c, In (img, h, c) imgs -> image_wf img /\ nth_error contents c = Some (content_rec img)) /\
-  (forall i1 h1 c1 i2 h2 c2, In (i1, h1, c1) imgs -> In (i2, h2, c2) imgs ->
-     (c1 = c2 <-> image_id h1 = image_id h2)) /\
+  (forall i1 h1 c1 i2 h2 c2, In (i1, h1, c1) imgs -> In (i2, h2, c2) imgs -> (c1 = c2 <-> h1 = h2)) /\
   Forall (op_ok imgs) ops /\
   length (c11_model (Case true imgs contents ops [])) = 10%nat.
 Proof.
@@ -368,4 +388,19 @@ Proof.
       split; intros X; try reflexivity; try discriminate X; vm_compute in X; discriminate X.
   - repeat constructor; unfold pos_ok, in_dom; cbn [fst snd length]; repeat split; try lia; try discriminate.
   - vm_compute. reflexivity.
+Qed.
+
+(* the hypotheses of C11_bytes_parse, C11_invariant and the pairing theorems are met by a new handler
+   and an empty terminal, for any well-formed call *)
+Example C11_invariant_nonvacuous :
+  Inv true (kitty_new false) store0 /\ cache_wf (kitty_new false) /\ ids_ok (k_ids (kitty_new false)) /\
+  op_wf (OpDraw ex_img ex_hash (1, 1)) /\ in_dom (1, 1) /\
+  parse_stream (fst (fst (step (kitty_new false) (OpErase ex_img ex_hash (Some (1, 1)))))) =
+    Some [del_item 900477109 (Some 65538)].
+Proof.
+  destruct C11_wf_nonvacuous as (W1 & _).
+  split; [apply inv_init|]. split; [intros id img hash H; discriminate|].
+  split; [constructor; cbn [kitty_new k_ids map length];
+          [intros h i H; discriminate|constructor|constructor|reflexivity]|].
+  split; [exact W1|]. split; [split; reflexivity|]. vm_compute. reflexivity.
 Qed.
